@@ -55,8 +55,8 @@ def label (s : St) (a : Actor) : Option Label :=
     | .k1 => some { obj := oWk, op := "store", a1 := .num 1, ord := "Release" }
     | .k2 => some { obj := oWco, op := "opt.store", a1 := .ne (-1) }
     | .k3 => some { obj := oState, op := "load", res := .num (b2i s.state), ord := "Acquire" }
-    | .k4 | .kc3 => some { obj := oWco, op := "opt.take", res := someIf s.wco }
-    | .k4r => some lblResume
+    | .k4 | .kc3 | .k2k => some { obj := oWco, op := "opt.take", res := someIf s.wco }
+    | .k4r | .k2r => some lblResume
     | .k5d => some (lblCst s)
     | .k5 => some { obj := oCco, op := "opt.store", a1 := .ne (-1) }
     | .k5x => some { obj := oCco, op := "opt.clear" }
@@ -91,12 +91,12 @@ def ppcName : PPc → String
   | .pd0pan => "pd0pan" | .pd1 => "pd1" | .pfin => "pfin" | .pdis => "pdis" | .pd2load => "pd2load" | .pen => "pen"
 def kpcName : KPc → String
   | .kidle => "kidle" | .k0 => "k0" | .k1 => "k1" | .k2 => "k2" | .k3 => "k3" | .k4 => "k4" | .k4r => "k4r"
-  | .k5 => "k5" | .k5d => "k5d" | .k5x => "k5x" | .k5c => "k5c" | .kc3 => "kc3" | .kc4 => "kc4" | .k6 => "k6"
+  | .k5 => "k5" | .k5d => "k5d" | .k5x => "k5x" | .k2t => "k2t" | .k2k => "k2k" | .k2r => "k2r" | .k5c => "k5c" | .kc3 => "kc3" | .kc4 => "kc4" | .k6 => "k6"
 def vpcName : VPc → String | .vidle => "vidle" | .v0 => "v0" | .v1 => "v1" | .v2 => "v2"
 def tpcName : TPc → String | .tidle => "tidle" | .t0 true => "t0own" | .t0 false => "t0stale" | .t1 => "t1"
 def locName : Loc → String
   | .run => "run" | .ktail => "ktail" | .ytail => "ytail" | .slot => "slot" | .heldK => "heldK" | .heldKc => "heldKc"
-  | .heldT => "heldT" | .heldC => "heldC" | .heldV t => s!"heldV{t}" | .queued => "queued"
+  | .heldKt => "heldKt" | .heldT => "heldT" | .heldC => "heldC" | .heldV t => s!"heldV{t}" | .queued => "queued"
 
 /-- transition name for coverage: actor pc plus the branch taken -/
 def transName (s : St) (a : Actor) (e : Env) : String :=
@@ -114,12 +114,12 @@ def transName (s : St) (a : Actor) (e : Env) : String :=
       | _, _ => "")
   | .K => "K." ++ kpcName s.kpc ++ (match s.kpc with
       | .k5d => b (s.cdis == 0) "/enabled" "/disabled" | .k0 => b (s.tmo == 0) "/untimed" "/arm" | .k3 => b s.state "/selfwake" "/sleep"
-      | .k4 | .kc3 => b s.wco "/got" "/empty" | .k5c => b (canc s) "/canceled" "/no"
+      | .k4 | .kc3 | .k2k => b s.wco "/got" "/empty" | .k2t => b s.due "/deadline_passed" "/not_yet" | .k5c => b (canc s) "/canceled" "/no"
       | _ => "")
   | .V t => "V." ++ vpcName (s.vpcs t) ++ (match s.vpcs t with
       | .v0 => b s.state "/merged" "/first" | .v1 => b s.wco "/got" "/empty" | _ => "")
   | .T => "T." ++ tpcName s.tpc ++ (match s.tpc, e with
-      | .tidle, .popOwn => "/popOwn" | .tidle, .popStale => "/popStale" | .t0 _, _ => b s.wco "/got" "/empty" | _, _ => "")
+      | _, .tick => "/tick" | .tidle, .popOwn => "/popOwn" | .tidle, .popStale => "/popStale" | .t0 _, _ => b s.wco "/got" "/empty" | _, _ => "")
   | .C => "C"
   | .D => "D." ++ (match s.dpc with | .didle => "start" | .d0load => b s.wk "spin" "free" | .d1 => "gone" | .dfin => "fin")
   | .S => "S.resume"
@@ -160,11 +160,13 @@ structure PObj where
   toks : List (String × String) := []    -- (object name, instance) of its other fields
   kname : Option String := none          -- the active kernel tail (`subscribe` of this Park)
   yname : Option String := none          -- the active Yield tail
+  k2due : Bool := false                  -- `due` when the active tail published the coroutine (its `k2`)
   isThr : Bool := false
   tp : List TPN := [{ s := {} }]
   tpIn : Nat := 0                        -- unpark calls in progress on the ThreadPark
 
 structure W where
+  fix : Bool := true                     -- code variant of the tree that produced the trace (header `f6fix=`)
   parker : String := "c:c1"
   parks : List PObj := []
   pcur : Option Nat := none              -- the Park of the parker's current call
@@ -223,7 +225,8 @@ def stepCands (w : W) (i : Nat) (p : PObj) (a : Actor) (envs : List Env) (ev : E
       -- previous tail may still be on its way: it is logged after the tail's last operation)
       let kn := if s'.kpc == .k5d && s.kpc != .k5d then none else p.kname
       let yn := if s'.ypend && !s.ypend then none else p.yname
-      some (l, w'.set i (recordTok { p with st := s', kname := kn, yname := yn } ev), transName s a e)
+      let kd := if s.kpc == .k2 && s'.kpc == .k2t then s'.due else p.k2due
+      some (l, w'.set i (recordTok { p with st := s', kname := kn, yname := yn, k2due := kd } ev), transName s a e)
     | _, _ => none
 
 /-- same, after the (unobservable) start of an operation: `pre` is taken first when the actor is idle -/
@@ -238,6 +241,24 @@ def startCands (w : W) (i : Nat) (p : PObj) (a : Actor) (pre : Env) (ev : Event)
     | some s' => (stepCands w i { p with st := s' } a [.go] ev).map fun c => (c.1, c.2.1, transName s a pre ++ "+" ++ c.2.2)
     | none => []
   else stepCands w i p a [.go] ev
+
+/-- the kernel tail's next observable step. Its re-check of the time (`k2t`) reads the clock, which is not in the
+    trace: both outcomes are offered (the deadline has passed already / it passes now, `tick`, / not yet) and the event
+    that follows - `wait_co.take` or `state.load` - decides; the read may also have happened earlier than that event. -/
+def kCands (w : W) (i : Nat) (p : PObj) (ev : Event) : List Cand :=
+  if p.st.kpc == .k2t then
+    let viaGo := match step p.st .K .go with | some s' => stepCands w i { p with st := s' } .K [.go] ev | none => []
+    let viaTick := match step p.st .T .tick with
+      | some s1 => (match step s1 .K .go with | some s' => stepCands w i { p with st := s' } .K [.go] ev | none => [])
+      | none => []
+    -- the clock was read right after the publication, before the deadline passed (the steps of the others since then do
+    -- not depend on where the tail is between `k2t` and `k3`): `k2t` executed at that earlier point
+    let viaEarly := if p.k2due then [] else
+      match step { p.st with due := false } .K .go with
+      | some s' => stepCands w i { p with st := { s' with due := p.st.due } } .K [.go] ev
+      | none => []
+    (viaGo ++ viaTick ++ viaEarly).map fun c => (c.1, c.2.1, "K.k2t+" ++ c.2.2)
+  else stepCands w i p .K [.go] ev
 
 def findPark (w : W) (f : PObj → Bool) : Option (Nat × PObj) :=
   let rec go : Nat → List PObj → Option (Nat × PObj)
@@ -317,7 +338,7 @@ def cands (w : W) (_t : Nat) (ev : Event) : List Cand :=
     else if ev.op == "finish_enter" then [(obsLabel ev, { w with ext := ev.actor :: w.ext }, "ext.enter")]
     else if ev.op == "resume_enter" then
       -- who resumes the parker must hold it
-      match findPark w (fun p => p.kname == some ev.actor && p.st.kpc == .k4r) with
+      match findPark w (fun p => p.kname == some ev.actor && (p.st.kpc == .k4r || p.st.kpc == .k2r)) with
       | some (i, p) => stepCands w i p .K [.go] ev
       | none =>
         match (if ev.actor == "timer" then findPark w (fun p => p.st.tpc == .t1) else none) with
@@ -346,7 +367,7 @@ def cands (w : W) (_t : Nat) (ev : Event) : List Cand :=
          | none => [])
       | "blk.new" =>
         if tokNum ev.a1 == w.parks.length then
-          [(obsLabel ev, { w with parks := w.parks ++ [{ isThr := !w.parker.startsWith "c:" }], pcur := some (tokNum ev.a1), pcall := ev.op }, "new")]
+          [(obsLabel ev, { w with parks := w.parks ++ [{ st := { fix := w.fix }, isThr := !w.parker.startsWith "c:" }], pcur := some (tokNum ev.a1), pcall := ev.op }, "new")]
         else []
       | "blk.park" =>
         let i := tokNum ev.a1
@@ -442,7 +463,7 @@ def cands (w : W) (_t : Nat) (ev : Event) : List Cand :=
       -- coroutine has finished meanwhile), the tail itself runs `Park::drop` of the per-coroutine Park, after its
       -- `wait_kernel.store(false)`
       if p.st.kpc == .kidle && ev.obj == oWk && ev.op == "load" then startCands w i p .D .drop ev
-      else stepCands w i p .K [.go] ev
+      else kCands w i p ev
     | none =>
       -- the finishing tail of the parker may run `Park::drop` of its own handle
       if ev.obj == oWk && ev.op == "load" then
@@ -453,10 +474,14 @@ def cands (w : W) (_t : Nat) (ev : Event) : List Cand :=
   else if ev.actor == "timer" && ev.obj == oWco && ev.op == "opt.take" then
     match findPark w (fun p => !p.isThr && p.wcoTok == some ev.inst) with
     | some (i, p) =>
-      let viaOwn := match step p.st .T .popOwn with | some s' => stepCands w i { p with st := s' } .T [.go] ev | none => []
+      -- which entry fired is not in the trace. An entry of an earlier call is preferred: attributing a stale entry to
+      -- the current call would claim that its deadline has passed, which the tail's own re-check may contradict; the
+      -- other mistake is harmless (the model keeps an armed entry that never fires)
+      let s0 := match step p.st .T .tick with | some s1 => s1 | none => p.st
+      let viaOwn := match step s0 .T .popOwn with | some s' => stepCands w i { p with st := s' } .T [.go] ev | none => []
       let viaStale := match step p.st .T .popStale with | some s' => stepCands w i { p with st := s' } .T [.go] ev | none => []
       let direct := stepCands w i p .T [.go] ev
-      direct ++ viaOwn ++ viaStale ++ (if ev.res == Tok.num (-1) then skipC "T.foreign" else [])
+      direct ++ viaStale ++ viaOwn ++ (if ev.res == Tok.num (-1) then skipC "T.foreign" else [])
     | none => if ev.res == Tok.num (-1) then skipC "T.foreign" else []
   else
     match w.vctx.find? (·.1 == ev.actor) with
@@ -503,7 +528,8 @@ def machine : Machine where
       .ok { parker := "t0", parks := List.replicate ((hnat h "blockers").getD 1) { isThr := true } }
     else
     let parker := (hget h "pname").getD (if (hget h "parker").getD "co" == "thr" then "p1" else "c:c1")
-    .ok { parker := parker, parks := if fam == "park" then [{}] else [] }
+    let fix := (hget h "f6fix").getD "0" == "1"
+    .ok { fix := fix, parker := parker, parks := if fam == "park" || fam == "park_f6" then [{ st := { fix := fix } }] else [] }
   actor := fun _ _ => some 0
   cands := cands
   inv := invW
